@@ -1,6 +1,7 @@
 package props
 
 import (
+	"go/types"
 	"fmt"
 	"go/token"
 	"sort"
@@ -385,5 +386,97 @@ func c20Collects(p *load.Prog, r *oblig.Run) {
 	}
 	if n == 0 {
 		r.Add("R20.k", "loops", p.Pos(fn.Pos()), "loops over the warnings of a node").Unknown("Document.Warnings has no loop over the result of a Warnings() call")
+	}
+}
+
+// c17VisibilityFields (R17.e): the living guard of a component reads the visibility mode from a field of the
+// component. Every place in package html that builds a component holding a LivingVisibility field assigns that
+// field, and not with a constant: a field left at its zero value "" is none of hide/placeholder/show, and since no
+// visibility switch has a default branch it behaves like show - the component publishes living people whatever
+// the user asked for. (The guard analysis R17.a takes the field for the mode; this rule is what entitles it to.)
+func c17VisibilityFields(p *load.Prog, r *oblig.Run) {
+	r.Rule("R17.e", "every html component that keeps the visibility mode in a field gets that field assigned (from a parameter or an option, never left empty) wherever it is built", 10)
+	isVis := func(t types.Type) bool {
+		n := load.NamedOf(t)
+		return n != nil && n.Obj().Name() == "LivingVisibility"
+	}
+	ord := map[string]int{}
+	for _, fn := range p.Repo {
+		if pkgPathOf(fn) != load.PkgHTML {
+			continue
+		}
+		for _, b := range fn.Blocks {
+			for _, ins := range b.Instrs {
+				al, ok := ins.(*ssa.Alloc)
+				if !ok {
+					continue
+				}
+				pt, ok := al.Type().(*types.Pointer)
+				if !ok {
+					continue
+				}
+				st, ok := pt.Elem().Underlying().(*types.Struct)
+				if !ok {
+					continue
+				}
+				var fields []int
+				for i := 0; i < st.NumFields(); i++ {
+					if isVis(st.Field(i).Type()) {
+						fields = append(fields, i)
+					}
+				}
+				if len(fields) == 0 {
+					continue
+				}
+				// a composite literal: at least one field store on this allocation (a plain `var x T` copy is not a construction)
+				literal := false
+				assigned := map[int]ssa.Value{}
+				for _, ref := range *al.Referrers() {
+					fa, ok := ref.(*ssa.FieldAddr)
+					if !ok {
+						if s2, isSt := ref.(*ssa.Store); isSt && s2.Addr == ssa.Value(al) {
+							literal = false
+							assigned = nil
+							break
+						}
+						continue
+					}
+					for _, r2 := range *fa.Referrers() {
+						if s2, isSt := r2.(*ssa.Store); isSt && s2.Addr == ssa.Value(fa) {
+							literal = true
+							if assigned != nil {
+								assigned[fa.Field] = s2.Val
+							}
+						}
+					}
+				}
+				if !literal || assigned == nil {
+					continue
+				}
+				tn := "struct"
+				if n := load.NamedOf(pt.Elem()); n != nil {
+					tn = n.Obj().Name()
+				}
+				for _, fi := range fields {
+					key := fmt.Sprintf("%s.%s built in %s", tn, st.Field(fi).Name(), load.FuncName(fn))
+					ord[key]++
+					if ord[key] > 1 {
+						key = fmt.Sprintf("%s #%d", key, ord[key])
+					}
+					o := r.Add("R17.e", key, p.Pos(al.Pos()), "assignment of the visibility field")
+					v, has := assigned[fi]
+					switch {
+					case !has:
+						o.Fail("the component " + tn + " is built without its " + st.Field(fi).Name() + " field: the mode stays \"\" , which matches neither hide nor placeholder, so the component's living guard never fires and it writes the names and dates of living people in every mode")
+					default:
+						if k, isK := v.(*ssa.Const); isK && k.Value != nil {
+							o.Fail("the component " + tn + " is built with the constant mode " + k.Value.ExactString() + " instead of the mode the user asked for")
+						} else {
+							o.OK("assigned from " + v.Name())
+						}
+					}
+				}
+			}
+		}
 	}
 }
